@@ -198,6 +198,14 @@ func vfC17DriverGoroutines() []string {
 	return out
 }
 
+func vfC17GoroutineID(g string) string {
+	g = strings.TrimPrefix(g, "goroutine ")
+	if i := strings.Index(g, " "); i > 0 {
+		return g[:i]
+	}
+	return g
+}
+
 func vfC17IsHarnessFunc(f string) bool {
 	return strings.Contains(f, "gocql.vf") || strings.Contains(f, "gocql.(*vf") || strings.Contains(f, "gocql.TestVf") ||
 		strings.Contains(f, "gocql.Vf")
@@ -277,14 +285,34 @@ func (r *vfC17Run) records(sched int, end vfC17Rec) []vfC17Rec {
 	return recs
 }
 
-func vfC17HangSig(dump string) string {
-	for _, g := range strings.Split(dump, "\n\n") {
-		if !strings.Contains(g, "gocql.(*Session).Close") {
+// vfC17HangSig classifies a hanging Session.Close of session s from a goroutine dump: where the
+// goroutine running s.Close is blocked and, for the refresh debouncer, what its flusher is doing
+// (the debouncer is identified by the receiver pointer printed in the frames).
+func vfC17HangSig(dump string, s *Session) string {
+	gs := strings.Split(dump, "\n\n")
+	self := fmt.Sprintf("gocql.(*Session).Close(%p", s)
+	for _, g := range gs {
+		if !strings.Contains(g, self) {
 			continue
 		}
 		switch {
-		case strings.Contains(g, "refreshDebouncer).stop"):
-			return "refresh-debouncer-stop"
+		case strings.Contains(g, "refreshDebouncer).stop("):
+			ptr := ""
+			if i := strings.Index(g, "refreshDebouncer).stop("); i >= 0 {
+				rest := g[i+len("refreshDebouncer).stop("):]
+				if j := strings.IndexAny(rest, ",)"); j > 0 {
+					ptr = rest[:j]
+				}
+			}
+			for _, f := range gs {
+				if strings.Contains(f, "refreshDebouncer).flusher("+ptr) {
+					if strings.Contains(f, "gocql.(*Session).refreshRing") {
+						return "refresh-flusher-waits-for-itself"
+					}
+					return "refresh-debouncer-stop-flusher-busy"
+				}
+			}
+			return "refresh-debouncer-stop" // the flusher is gone
 		case strings.Contains(g, "eventDebouncer).stop"):
 			return "event-debouncer-stop"
 		case strings.Contains(g, "controlConn).close"):
@@ -305,10 +333,10 @@ func (r *vfC17Run) closeAndObserve(sched int, plan string, closers func()) vfC17
 	end := vfC17Rec{Sched: sched, Ev: "s_end", Size: r.numConns, Conns: []int{}, Open: []int{}, Dead: []int{}, Q: "none"}
 	if !ok {
 		res.hang, res.dump = true, dump
-		res.hangSig = vfC17HangSig(dump)
+		res.hangSig = vfC17HangSig(dump, r.sess)
 		end.Q = "hang"
 		res.recs = r.records(sched, end)
-		if res.hangSig == "refresh-debouncer-stop" {
+		if res.hangSig == "refresh-debouncer-stop" || res.hangSig == "refresh-flusher-waits-for-itself" {
 			// the verdict is recorded; take the quit hand-shake the flusher no longer takes, so that the
 			// stuck Close ends and the goroutine check of the batch stays meaningful
 			for i := 0; i < 200 && !r.sess.Closed(); i++ {
@@ -428,11 +456,11 @@ func vfC17RandomRun(seed int64, sched int) (res vfC17SessResult, err error) {
 	switch mode {
 	case 0:
 		plan = append(plan, "close")
-		wg.Wait()
+		vfWithin(vfC17CloseWatchdog, wg.Wait) // callers that never return are reported after Close
 		closers = s.Close
 	case 1:
 		plan = append(plan, "close-twice")
-		wg.Wait()
+		vfWithin(vfC17CloseWatchdog, wg.Wait)
 		closers = func() { s.Close(); s.Close() }
 	case 2:
 		plan = append(plan, "close-concurrent")
@@ -498,10 +526,11 @@ func TestVfC17Sessions(t *testing.T) {
 	seed := vfSeed()
 	sched := 0
 	errs := 0
+	excluded := map[string]bool{}
 	for b := 0; b*batch < nRuns; b++ {
 		var wg sync.WaitGroup
 		var mu sync.Mutex
-		hung := false
+		hung, anyHang := false, false
 		for i := 0; i < batch && b*batch+i < nRuns; i++ {
 			sched++
 			wg.Add(1)
@@ -518,6 +547,9 @@ func TestVfC17Sessions(t *testing.T) {
 				for _, r := range res.recs {
 					out.Write(r)
 				}
+				if res.hang {
+					anyHang = true
+				}
 				if res.hang && !res.rescued {
 					hung = true
 				}
@@ -526,10 +558,25 @@ func TestVfC17Sessions(t *testing.T) {
 			}(sched)
 		}
 		wg.Wait()
-		// goroutine leak check for the batch: every session of the batch has been closed
+		// goroutine leak check for the batch: every session of the batch has been closed.  A batch with a
+		// hanging Close is not judged (the hang is the verdict); what it left behind is excluded later.
 		var gs []string
-		if !hung {
-			vfC17Poll(2*time.Second, func() bool { gs = vfC17DriverGoroutines(); return len(gs) == 0 })
+		live := func() []string {
+			var out []string
+			for _, g := range vfC17DriverGoroutines() {
+				if !excluded[vfC17GoroutineID(g)] {
+					out = append(out, g)
+				}
+			}
+			return out
+		}
+		if anyHang {
+			time.Sleep(100 * time.Millisecond)
+			for _, g := range vfC17DriverGoroutines() {
+				excluded[vfC17GoroutineID(g)] = true
+			}
+		} else {
+			vfC17Poll(2*time.Second, func() bool { gs = live(); return len(gs) == 0 })
 		}
 		funcs := map[string]bool{}
 		for _, g := range gs {
@@ -619,7 +666,7 @@ func vfC17ScenCloseAfterRefresh() vfC17ScenResult {
 		res.Obs = "Close returned"
 	case <-time.After(vfC17CloseWatchdog):
 		dump := vfGoroutineDump()
-		res.Viol = "session-close-hang:" + vfC17HangSig(dump)
+		res.Viol = "session-close-hang:" + vfC17HangSig(dump, s)
 		res.What = "Session.Close did not return within the watchdog when a ring refresh was requested just before " +
 			"(the flusher woke for the refresh, saw `stopped` and returned; stop() blocks on the quit send)"
 		res.Obs = "Close hung"
@@ -688,7 +735,7 @@ func vfC17ScenLatePool() vfC17ScenResult {
 	select {
 	case <-closed:
 	case <-time.After(vfC17CloseWatchdog):
-		res.Viol = "session-close-hang:" + vfC17HangSig(vfGoroutineDump())
+		res.Viol = "session-close-hang:" + vfC17HangSig(vfGoroutineDump(), s)
 		res.What = "Session.Close did not return while a refresh was adding a host"
 		return res
 	}
@@ -806,6 +853,53 @@ func vfC17ScenRefreshAfterStop() vfC17ScenResult {
 	return res
 }
 
+// The control connection fails while the ring-refresh flusher itself is using it: exec() calls
+// closeWithError on the flusher's goroutine, controlConn.HandleError runs reconnect() inline, and
+// reconnect() calls Session.refreshRing(), i.e. asks the flusher - itself - for a refresh and waits.
+func vfC17ScenFlusherSelfWait() vfC17ScenResult {
+	res := vfC17ScenResult{Name: "control-conn-fails-during-refresh"}
+	r, err := vfC17NewRun(1, 2, 1, nil)
+	if err != nil {
+		res.Err = err.Error()
+		return res
+	}
+	s := r.sess
+	ch := s.control.getConn()
+	mc, ok := ch.conn.conn.(*vfMemConn)
+	if !ok {
+		res.Err = "control connection is not an in-memory connection"
+		return res
+	}
+	// the next write on the control connection fails (as a reset / write timeout would)
+	mc.SetFault(&vfWriteFault{FailAtByte: int64(len(mc.Written())), StallAtByte: -1})
+	answered := make(chan struct{})
+	go func() { s.refreshRing(); close(answered) }()
+	select {
+	case <-answered:
+		res.Obs = "refreshRing returned"
+	case <-time.After(vfC17CloseWatchdog):
+		res.Obs = "refreshRing never returned"
+	}
+	mc.SetFault(nil)
+	okc, dump := vfWithin(vfC17CloseWatchdog, s.Close)
+	if !okc {
+		sig := vfC17HangSig(dump, s)
+		res.Viol = "session-close-hang:" + sig
+		res.What = "Session.Close did not return after the control connection failed under the ring refresh: the refresh " +
+			"debouncer's flusher runs controlConn.reconnect inline (Conn.exec -> closeWithError -> controlConn.HandleError) and " +
+			"reconnect waits in Session.refreshRing for the flusher, i.e. for itself; stop() then blocks on the quit send"
+		res.Obs += "; Close hung"
+		for _, g := range strings.Split(dump, "\n\n") {
+			if strings.Contains(g, "refreshDebouncer).flusher") {
+				res.Detail = g
+			}
+		}
+	} else {
+		res.Obs += "; Close returned"
+	}
+	return res
+}
+
 func TestVfC17Scenarios(t *testing.T) {
 	outPath := os.Getenv("VF_TRACES")
 	if outPath == "" {
@@ -816,10 +910,17 @@ func TestVfC17Scenarios(t *testing.T) {
 		t.Fatal(err)
 	}
 	defer out.Close()
-	// sequential: several of them look at the process-wide goroutine dump
-	for _, f := range []func() vfC17ScenResult{vfC17ScenHeartbeatAfterClose, vfC17ScenEventStopTwice, vfC17ScenRefreshAfterStop,
-		vfC17ScenLatePool, vfC17ScenCloseAfterRefresh} {
-		out.Write(f())
+	fs := []func() vfC17ScenResult{vfC17ScenHeartbeatAfterClose, vfC17ScenEventStopTwice, vfC17ScenRefreshAfterStop,
+		vfC17ScenLatePool, vfC17ScenFlusherSelfWait, vfC17ScenCloseAfterRefresh}
+	results := make([]vfC17ScenResult, len(fs))
+	var wg sync.WaitGroup
+	for i, f := range fs {
+		wg.Add(1)
+		go func(i int, f func() vfC17ScenResult) { defer wg.Done(); results[i] = f() }(i, f)
+	}
+	wg.Wait()
+	for _, r := range results {
+		out.Write(r)
 	}
 	fmt.Printf("VFSUMMARY {}\n")
 }
